@@ -220,6 +220,12 @@ def run(tier, seed):
     for product in PRODUCTS:
         check_triples(product, st)
     par.pmap(work_cli, cli_tasks(), stats=st)
+    vcases = []
+    for prod, v0, cat, name, v in H.pick(cli_tasks(), seed, 12 if tier == 'quick' else 60):
+        fmt, _ = PRODUCTS[prod]
+        vcases.append({'label': '%s %s' % (prod, v), 'opts': ['-n'] + (['-j'] if len(vcases) % 2 else []),
+                       'make': (lambda fmt=fmt, v=v: P.Server(banner=(fmt % (v, '')).encode(), kex=['sntrup761x25519-sha512@openssh.com'], key=['ssh-ed25519'], enc=['aes256-ctr'], mac=['hmac-sha2-256']))})
+    validated = H.validate_traces(vcases, st)
     return evidence.finish(
         PID, tier, seed, st, t0,
         rule='for OpenSSH, Dropbear, libssh (software objects parsed from real banners): all ordered pairs of %d versions with 1-2 components over '
@@ -227,7 +233,7 @@ def run(tier, seed):
              'end-to-end: for every first-appeared version of a clean algorithm in the DB, banners just below/at/above it and multi-digit versions, '
              '"(rec) +name" iff server version >= first-appeared version' % (len(v12), COMP if tier != 'quick' else 'a 10-value subset', len(v34), COMP34),
         assumptions=['numeric order = component-wise integer comparison with zero padding', 'pairs equal up to trailing zeros / patch level only need antisymmetry and transitivity'],
-        exhaustive=True)
+        exhaustive=True, traces_validated=validated)
 
 
 def replay(path):
